@@ -125,6 +125,12 @@ VP_HARNESS(h_tecmp)
         g_f[7] = static_cast<uint8_t>(DT);
     }
 #endif
+#if defined(VDL) && MT == 2
+    // the bus-status generic part's vendor-data length (payload bytes 4-5): concrete in these shapes (a stride or copy size
+    // derived from it must not be a symbolic loop bound for the solver); all other shapes leave it symbolic
+    if (N > 33)
+        vp_put16(g_f + 32, static_cast<uint16_t>(VDL));
+#endif
 #if DLC >= 0 && MT == 3
     // inner length byte (CAN dlc at payload offset 4, LIN data length at offset 1): concrete shape, because it becomes the
     // size of a payload allocation (symbolic allocation sizes are what CBMC cannot digest here)
